@@ -1,5 +1,7 @@
 import GqlProofs.ExecCollect3
 import GqlProofs.ExecSelectOp
+import GqlProofs.ExecFuel
+import GqlProofs.ExecExample
 /-! # C01 — CollectFields and request-level selection (theorem side)
 
 Property theorems only.  `collect` / `collectMerged` / `selectOperation` / `execute` are the executable
@@ -376,5 +378,28 @@ example : (match execute exSchema ⟨exDoc.defs.take 2, exL⟩ "q1" [] default 1
 /-- a request without errors does produce a result (no field of `exSels` is defined on `Q`, so the data is empty) -/
 example : (match execute exSchema exDoc "q2" [] default 100 with
     | .result (some fs) _ _ _ => fs.map (·.1) | _ => ["<no result>"]) = [] := by decide +kernel
+
+/-! ## 8. the response does not depend on the fuel -/
+
+/-- A response that is not `fuelOut` is THE response: every larger fuel gives the same data, errors, log (and the
+same request error). So "for every fuel whose response is not `fuelOut`" in C01/C04/C13/C20 speaks about one
+well-defined response, the one the driver computes with `defaultFuel` whenever that suffices. -/
+theorem response_independent_of_fuel (s : Schema) (doc : Document) (opName : String) (inputs : Coerce.Vars) (w : World)
+    (fuel : Nat) (r : Response) (h : execute s doc opName inputs w fuel = r) (hr : r ≠ .fuelOut) (k : Nat) :
+    execute s doc opName inputs w (fuel + k) = r :=
+  execute_fuel_add s doc opName inputs w fuel r h hr k
+
+/-- the same at every level of the recursion (here: a selection set) -/
+theorem selection_set_independent_of_fuel (c : Ctx) (fuel : Nat) (dfr : Bool) (rt : String) (src : GoVal) (path : Path)
+    (groups : Groups) (acc : List (String × JVal)) (st : St) (r : Res (List (String × JVal))) (st' : St)
+    (h : execGroups c fuel dfr rt src path groups acc st = (r, st')) (hr : r ≠ .fuelOut) (k : Nat) :
+    execGroups c (fuel + k) dfr rt src path groups acc st = (r, st') :=
+  execGroups_fuel_add c fuel dfr rt src path groups acc st r st' h hr k
+
+open Ex in
+/-- fuel 5 is not enough for the example request, fuel 12 is, and 50 gives the same log -/
+example : obsLog (execute schema doc "Q" varsF world 5) = ["<no result>"]
+    ∧ obsLog (execute schema doc "Q" varsF world 12) = obsLog (execute schema doc "Q" varsF world 50) := by
+  decide +kernel
 
 end GqlModel.Exec
